@@ -264,7 +264,7 @@ package yubiagent
 //@     invariant calls(strings.Split) == p0 + 1 && arg(strings.Split, p0, 0) == str(ret(Cmd.Output, e0, 0)) && arg(strings.Split, p0, 1) == "\n"
 //@     invariant forall(j, 0 <= j && j < len(ret(strings.Split, p0, 0)), ret(strings.Split, p0, 0)[j] == lineAt(p0, j))
 //@     invariant [every-slot-is-the-two-characters-after-Slot-of-a-line] forall(k, 0 <= k && k < len(slots),
-//@       exists(j, 0 <= j && j <= rangeindex, slotLine(lineAt(p0, j)) && slots[k] == substr(lineAt(p0, j), 5, 7)))
+//@       exists(j, 0 <= j && j < len(ret(strings.Split, p0, 0)), slotLine(lineAt(p0, j)) && slots[k] == substr(lineAt(p0, j), 5, 7)))
 //@     invariant [every-Slot-line-contributes] forall(j, 0 <= j && j <= rangeindex, slotLine(lineAt(p0, j)) ==>
 //@       exists(k, 0 <= k && k < len(slots), slots[k] == substr(lineAt(p0, j), 5, 7)))
 
